@@ -104,7 +104,19 @@ impl CompactionWorker {
 
                 loop {
                     log::info!("Compaction thread waiting for tasks.");
+                    #[cfg(not(raindb_verif))]
                     let channel_task = receiver.recv().unwrap();
+                    // Under verification the orphaned worker of a failed `DB::open` (its sender is
+                    // dropped without a terminate command) ends quietly instead of panicking; the
+                    // controlled runtime would otherwise abort the whole execution.
+                    #[cfg(raindb_verif)]
+                    let channel_task = match receiver.recv() {
+                        Ok(task) => task,
+                        Err(_) => {
+                            parking_lot::verif_rt::note_orphan_worker_exit();
+                            break;
+                        }
+                    };
                     task_queue.push_back(channel_task);
 
                     // FIXME: Just clone sender? Can the holder of the receiver also hold a clone of the sender?
